@@ -59,8 +59,9 @@ namespace hs
         std::vector<std::size_t> cap_mark;
         bool                     failure_seen = false;
         bool                     shrunk       = false;
-        std::size_t              last_block   = 0;
-        bool                     last_block_valid = false;
+        std::uintptr_t           last_end     = 0; // end (incl. back fence) of the latest stack-like allocation
+        bool                     last_end_valid = false;
+        std::size_t              last_block     = 0;
         void                     clear_model()
         {
             markers.clear();
